@@ -138,3 +138,12 @@ def run(ctx, report: Report) -> None:
                   'closest() is the nearest matching ancestor-or-self: the walk considers every ancestor, also across an iframe element',
                   self_fields={'tag': el_obj('start'), 'selectors': Obj(_name='SELECTORS')},
                   extra_stubs={'css_match.CSSMatch.match': lambda el: False, 'css_match.CSSMatch.match_selectors': lambda el, s_: False})
+
+    # select() walks the descendants of its target: the walk itself, on small abstract trees
+    from .sem import descendants_table
+    descendants_table(ctx, r2)
+
+    from .sem import select_limit_table
+    select_limit_table(ctx, r2)
+
+
